@@ -218,7 +218,11 @@ fn enumerate(out: &mut TraceOut, name: &str, prog: &Program, cap: usize, all_kin
     let mut clean = Calls::new();
     prog(&mut clean);
     let counts: BTreeMap<String, u64> = io::counts();
-    out.ev(json!({"ev": "FClean", "prog": name, "ok_calls": clean.ok_calls, "notable": clean.notable, "counts": counts}));
+    // programs that hand a sink back to the caller must have flushed it
+    let flushes = counts.get("sink.flush").copied().unwrap_or(0);
+    let writes = counts.get("sink.write").copied().unwrap_or(0);
+    out.ev(json!({"ev": "FClean", "prog": name, "ok_calls": clean.ok_calls, "notable": clean.notable, "counts": counts,
+                  "sink_writes": writes, "sink_flushes": flushes}));
     for (comp, n) in counts.iter() {
         let n = *n;
         let ks: Vec<u64> = if n as usize <= cap {
